@@ -75,12 +75,14 @@ func checkDAG(c *core.Ctx, d *lref.DAG, desc string, cfg cons.Config) {
 		// uninterrupted
 		a := cons.NewNode(cfg, idx.Epoch(d.Epoch), vals)
 		var lastErr string
-		for _, x := range seq {
+		for k, x := range seq {
 			err, crit := a.Process(evs[x])
 			lastErr = fmt.Sprint(err, crit)
-			if (err != nil || crit != "") && !byz {
-				return false
+			if (err != nil || crit != "") && !byz && k < len(seq)-1 {
+				return false // an earlier event is refused: judged on the edge where it was the last one
 			}
+			// a refusal of the LAST event is still compared with the restarted instance below: an instance that
+			// was restarted right before must refuse (or accept) it alike
 		}
 		want := observe(a, nm) + "|last=" + lastErr
 		// restarted right before the last event
@@ -133,8 +135,8 @@ func checkDAG(c *core.Ctx, d *lref.DAG, desc string, cfg cons.Config) {
 			e2, c2 := b.Process(evs[x])
 			mask |= 1 << uint(x)
 			c.Count("restarts", 2)
-			if (e1 != nil || c1 != "") && !byz {
-				break
+			if (e1 != nil || c1 != "") && !byz && fmt.Sprint(e1, c1) == fmt.Sprint(e2, c2) {
+				break // both refuse alike: not a restart matter (C01 judges acceptance)
 			}
 			if fmt.Sprint(e1, c1) != fmt.Sprint(e2, c2) || observe(a, mask) != observe(b, mask) {
 				c.Violation("restart/visible-every-boundary", map[string]interface{}{"dag": d.String(), "family": desc, "restart": "twice before every event (index order)", "diverged_at": x},
@@ -196,6 +198,25 @@ func main() {
 		cons.GenRounds(r, func(i int) bool { return c.Mine(i) && !c.OutOfBudget() }, func(d *lref.DAG, desc string) {
 			checkDAG(c, d, "F-round "+desc, cfgs[0])
 		})
+	}
+	// a sleeping validator returning with stale knowledge while the first election is split (frame-jumping
+	// roots whose intermediate slots matter), and the hand-written corpus
+	sleepers := []cons.SleeperCfg{{W: cons.WV(1, 1, 1, 1), Epoch: 1, MinSleep: 2, MaxSleep: 4, Tail: 4, DropInFirstRound: true, Rots: 2}}
+	if !quick {
+		sleepers = []cons.SleeperCfg{{W: cons.WV(1, 1, 1, 1), Epoch: 1, MinSleep: 2, MaxSleep: 4, Tail: 4, DropInFirstRound: true, Rots: 2},
+			{W: cons.WV(1, 1, 1, 1), Epoch: 1, MinSleep: 3, MaxSleep: 5, Tail: 5, Forks: true, Rots: 1}}
+	}
+	for _, sl := range sleepers {
+		cons.GenSleeper(sl, func(i int) bool { return c.Mine(i) && !c.OutOfBudget() }, func(d *lref.DAG, desc string) {
+			c.Count("sleeper_family_dags", 1)
+			checkDAG(c, d, "F-sleeper "+desc, cfgs[0])
+		})
+	}
+	cd, cn := cons.CorpusDAGs()
+	for i, d := range cd {
+		if c.Mine(1000003 + i) {
+			checkDAG(c, d, cn[i], cfgs[0])
+		}
 	}
 	cons.ExploreEpochs(c, cons.Report{"restart": true, "epoch": true}, quick)
 	c.Count("evaluations", c.Get("restarts"))
